@@ -7,7 +7,7 @@ FLAVOUR = "plain"
 TIMEOUT = 600
 RULE = ("file alphabet: 5 single files with the same columns (3 / 1 / 0 / 3 / 4 rows, one with two row groups, "
         "categorical label sets identical / disjoint / overlapping, codecs) and 3 hive sub-datasets; cell = "
-        "directory shape {flat, hive k=v, drill} x entry {list of paths, list of ParquetFile objects, directory "
+        "directory shape {flat, hive k=v, drill, two-level hive k=v/m=w, two-level drill} x entry {list of paths, list of ParquetFile objects, directory "
         "without _metadata, glob, merge() then re-open} x verify {False, True} x root {inferred, given}; inside: "
         "every ordered list of 1..3 distinct files (quick) / 1..4 (thorough); lists of >= 3 take the "
         "footer-gathering fast path, shorter ones and verify=True the legacy path; plus lists with one "
@@ -18,12 +18,18 @@ ASSUMPTIONS = ["with an inferred root, partition columns are judged only when th
                "top-level directories (documented ambiguity)", "a path is not repeated inside one list"]
 
 KEYS = [1, 2, 1, 3, 2]
+# second directory level (shapes hive2 / drill2): constant below a varying first level for some pairs of files
+# (files 0,1,3: m=7) and varying below a constant first level for others (files 0,2: k=1, m=7/8)
+KEYS2 = [7, 7, 8, 7, 8]
+DEPTH = {"flat": 0, "hive": 1, "drill": 1, "hive2": 2, "drill2": 2}
 
 
 def points(tier):
     pts = []
-    for shape in ("flat", "hive", "drill"):
+    for shape in ("flat", "hive", "drill", "hive2", "drill2"):
         for entry in ("paths", "objects", "dir", "glob", "merge"):
+            if DEPTH[shape] == 2 and entry == "objects":
+                continue
             for verify in (False, True):
                 for root in ("inferred", "given"):
                     if entry in ("dir", "glob") and root == "given" and shape == "flat":
@@ -66,21 +72,25 @@ def make_files(d, shape):
             sub = ""
         elif shape == "hive":
             sub = "k=%d" % KEYS[i]
-        else:
+        elif shape == "drill":
             sub = "%d" % KEYS[i]
+        elif shape == "hive2":
+            sub = os.path.join("k=%d" % KEYS[i], "m=%d" % KEYS2[i])
+        else:
+            sub = os.path.join("%d" % KEYS[i], "%d" % KEYS2[i])
         os.makedirs(os.path.join(d, "root", sub), exist_ok=True)
         path = os.path.join(d, "root", sub, "f%d.parquet" % i)
         fastparquet.write(path, df, compression=comp, row_group_offsets=rgo, write_index=False)
-        out.append((path, rows, KEYS[i]))
+        out.append((path, rows, (KEYS[i], KEYS2[i])))
     return out
 
 
-def read_rows(pf, pcol):
+def read_rows(pf, pcols):
     from mc import oracles as O
     df = pf.to_pandas()
     cols = {c: O.series_to_list(df[c]) for c in df.columns}
     rows = [(cols["a"][j], cols["s"][j], cols["c"][j]) for j in range(len(df))]
-    keys = cols.get(pcol) if pcol else None
+    keys = [cols.get(pc) for pc in pcols]
     return rows, keys, df
 
 
@@ -114,7 +124,7 @@ def run(p):
     d = scratch()
     files = make_files(d, shape)
     rootdir = os.path.join(d, "root")
-    pcol = {"flat": None, "hive": "k", "drill": "dir0"}[shape]
+    pcols = {"flat": [], "hive": ["k"], "drill": ["dir0"], "hive2": ["k", "m"], "drill2": ["dir0", "dir1"]}[shape]
     lists = []
     for n in range(1, maxlen + 1):
         lists += list(itertools.permutations(range(5), n))
@@ -138,7 +148,7 @@ def run(p):
                 pf = fastparquet.ParquetFile(rootdir, **kw)
                 order = sorted(range(5), key=lambda i: files[i][0])
             elif entry == "glob":
-                pat = os.path.join(rootdir, "*.parquet" if shape == "flat" else "*/*.parquet")
+                pat = os.path.join(rootdir, "/".join(["*"] * DEPTH[shape] + ["*.parquet"]))
                 pf = fastparquet.ParquetFile(pat, **kw)
                 order = sorted(range(5), key=lambda i: files[i][0])
             elif entry == "merge":
@@ -158,9 +168,8 @@ def run(p):
             continue
         datasets += 1
         exp = [r for i in order for r in files[i][1]]
-        expk = [files[i][2] for i in order for r in files[i][1]]
         try:
-            rows, keys, df = read_rows(pf, pcol)
+            rows, keys, df = read_rows(pf, pcols)
         except Exception as e:
             bad("read_raised", "%s: %s: %s" % (what, type(e).__name__, str(e)[:160]), exc=type(e).__name__)
             continue
@@ -174,15 +183,19 @@ def run(p):
                 ("asc"[ci] for ci in range(3) if [r[ci] for r in rows] != [e[ci] for e in exp]), "?")
             bad("content", "%s: rows %r, concatenation of the files %r" % (what, rows[:8], exp[:8]), col=col)
             continue
-        if pcol and exp:      # files without row groups carry no paths to derive partition values from
-            distinct_dirs = len({files[i][2] for i in order})
+        if pcols and exp:      # files without row groups carry no paths to derive partition values from
+            # only files with rows contribute paths; with an inferred root every level is derivable when those
+            # files lie in >= 2 distinct top-level directories
+            distinct_dirs = len({files[i][2][0] for i in order if files[i][1]})
             if root_mode == "given" or distinct_dirs >= 2:
-                if keys is None:
-                    bad("partition_column", "%s: no partition column %s in the frame (columns %r)" % (what, pcol, list(df.columns)))
-                else:
-                    got = [int(x) if isinstance(x, str) and x.isdigit() else x for x in keys]
-                    if got != expk:
-                        bad("partition_column", "%s: partition values %r, directories say %r" % (what, got, expk))
+                for lvl, pcol in enumerate(pcols):
+                    expk = [files[i][2][lvl] for i in order for r in files[i][1]]
+                    if keys[lvl] is None:
+                        bad("partition_column", "%s: no partition column %s in the frame (columns %r)" % (what, pcol, list(df.columns)), level=lvl)
+                    else:
+                        got = [int(x) if isinstance(x, str) and x.isdigit() else x for x in keys[lvl]]
+                        if got != expk:
+                            bad("partition_column", "%s: partition values %s=%r, directories say %r" % (what, pcol, got, expk), level=lvl)
     ok = not sigs
     return {"ok": ok, "outcome": "concatenation" if ok else "differs", "nontrivial": nontriv > 0,
             "counts": {"datasets": datasets, "with_rows": nontriv}, "sig": list(sigs.values()) or None, "detail": detail[0]}
